@@ -134,6 +134,31 @@ fn feed(t: &TrainT, pkts: &[Vec<u8>], storage: usize, expect: Expect, class: &st
             let _ = d.provision_storage(b);
         }
     }
+    // every other faulted transfer is given to a receiver that has just delivered the INTACT train (same
+    // lengths, same trailer): whatever the receiver remembers of a verified PDU must not vouch for the next one
+    if class != "intact" && fnv(&pkts.concat()) % 2 == 1 {
+        for p in &t.pkts {
+            rep.eval();
+            let r = dec_guard(&mut d, p);
+            if r.is_err() {
+                rep.count("c03.receiver-panic");
+                return false;
+            }
+            rx.observe(p, &r, RX_C03, "intact-before-fault", rep, replay);
+            if let Ok(Ok((DecapStatus::CompletedPkt(b, _), _))) = r {
+                let _ = d.provision_storage(b);
+                rep.count("c03.intact-delivered-before-fault");
+            }
+        }
+        if let Some(p) = &t.prime {
+            // the faulted copy starts from the same label memory as the intact one did
+            let r = dec_guard(&mut d, p);
+            rx.observe(p, &r, 0, class, rep, replay);
+            if let Ok(Ok((DecapStatus::CompletedPkt(b, _), _))) = r {
+                let _ = d.provision_storage(b);
+            }
+        }
+    }
     let mut delivered = false;
     for p in pkts {
         rep.eval();
@@ -166,7 +191,7 @@ impl Property for Prop {
         "C03"
     }
     fn rule(&self) -> &'static str {
-        "bits: for seeded fragment trains (2..6 packets, PDU 1..200 bytes, all label kinds incl. re-use substituted first fragments) built by the real encapsulator: EVERY single bit flip of every packet, EVERY burst (every start bit x length 2..32, all-ones pattern; thorough adds two random interior patterns), truncation at EVERY byte, drop / duplicate / adjacent swap of EVERY fragment, the frag-id field replaced by all 256 values, the CRC trailer replaced by {0, ~crc, crc+1, crc-1, byte rotations, random values}; totlen: the total-length field replaced by all 65536 values; double: seeded pairs of the above faults; reseal: structurally faulted trains whose trailer / total length are recomputed for a wrong interpretation (payload without the dropped fragment, with the duplicate, 16-bit wrapped overlay with >= 64 KiB storage, header of another train, label present but sealed as if re-used, first fragment repeated after an intermediate fragment, an early end fragment followed by more fragments, zero-length PDUs with a bad seal, a valid train interrupted by a first fragment of its own id that the receiver must refuse, a first fragment with an extension header sealed for a gap of stale storage bytes before / after its payload), and trains of different PDUs spliced on one fragment id; big: trains near 65535 bytes with storage >= 64 KiB incl. over-long trains. Oracle 1 (specification on the received bytes) applies to every run; oracle 2 (no delivery / delivered == sent) to the fault classes the property names. Evaluation = one decap call of a faulted transfer; non-trivial = a faulted transfer (fault actually changed the bytes or the order) that was fed completely; fingerprint = hash(train, fault)."
+        "bits: for seeded fragment trains (2..6 packets, PDU 1..200 bytes, all label kinds incl. re-use substituted first fragments) built by the real encapsulator: EVERY single bit flip of every packet, EVERY burst (every start bit x length 2..32, all-ones pattern; thorough adds two random interior patterns), truncation at EVERY byte, drop / duplicate / adjacent swap of EVERY fragment, the frag-id field replaced by all 256 values, the CRC trailer replaced by {0, ~crc, crc+1, crc-1, byte rotations, random values}; totlen: the total-length field replaced by all 65536 values; double: seeded pairs of the above faults; reseal: structurally faulted trains whose trailer / total length are recomputed for a wrong interpretation (payload without the dropped fragment, with the duplicate, 16-bit wrapped overlay with >= 64 KiB storage, header of another train, label present but sealed as if re-used, first fragment repeated after an intermediate fragment, an early end fragment followed by more fragments, zero-length PDUs with a bad seal, a valid train interrupted by a first fragment of its own id that the receiver must refuse, a first fragment with an extension header sealed for a gap of stale storage bytes before / after its payload, a train sealed for the label mode (re-use / written) of a train abandoned on the same fragment id just before; refused restarts also with the free list filled up so that the abandoned buffer cannot be given back); every other faulted transfer of the bits / totlen / double generators is fed to a receiver that has just delivered the intact train, and trains of different PDUs spliced on one fragment id; big: trains near 65535 bytes with storage >= 64 KiB incl. over-long trains. Oracle 1 (specification on the received bytes) applies to every run; oracle 2 (no delivery / delivered == sent) to the fault classes the property names. Evaluation = one decap call of a faulted transfer; non-trivial = a faulted transfer (fault actually changed the bytes or the order) that was fed completely; fingerprint = hash(train, fault)."
     }
     fn gens(&self, cx: &Cx) -> Vec<Gen> {
         vec![
@@ -418,7 +443,7 @@ impl Property for Prop {
                     v
                 };
                 let all: Vec<usize> = (0..nseg).collect();
-                let variant = rng.below(13);
+                let variant = rng.below(14);
                 let mut primed_deliveries = 0usize;
                 let (pkts, class): (Vec<Vec<u8>>, &str) = match variant {
                     0 => {
@@ -538,6 +563,11 @@ impl Property for Prop {
                             _ => mk_first(3, &[], id, (2 + pay.len() + 30) as u16, ptype, &pay),
                         };
                         p.insert(at, bad);
+                        if rng.chance(1, 2) {
+                            // (an empty "packet" = the application provisions storage until the memory reports full:
+                            // the refused first fragment then cannot give the abandoned train's buffer back)
+                            p.insert(at, vec![]);
+                        }
                         (p, ["reseal-refused-restart:unknown-mandatory", "reseal-refused-restart:chain-overrun", "reseal-refused-restart:null-label", "reseal-refused-restart:short-total", "reseal-refused-restart:oversize", "reseal-refused-restart:unresolvable-reuse"][kind])
                     }
                     11 | 12 => {
@@ -578,6 +608,37 @@ impl Property for Prop {
                         p.push(mk_end(id, &segs[nseg - 1], crc));
                         (p, if variant == 11 { "reseal-gap-of-stale-bytes-after-first-fragment" } else { "reseal-gap-of-stale-bytes-before-first-fragment" })
                     }
+                    13 if lt < 2 => {
+                        // a train abandoned on the same fragment id in the OTHER label mode, then a train sealed for the
+                        // abandoned train's mode: (a) re-use first fragment abandoned, then an explicit-label train sealed
+                        // as if its label were re-used; (b) explicit-label first fragment abandoned, then a re-use train
+                        // sealed as if its label were written
+                        let junk = rng.bytes(5);
+                        let mut p = vec![crate::hostile::mk_complete(lt, &wl, ptype, b"")];
+                        if rng.chance(1, 2) {
+                            p.push(mk_first(3, &[], id, (2 + 40) as u16, ptype, &junk));
+                            let t = (2 + full.len()) as u16;
+                            let crc = fr.gse(t, ptype, &[], &full);
+                            p.push(mk_first(lt, &wl, id, t, ptype, &segs[0]));
+                            for k in 1..nseg - 1 {
+                                p.push(mk_inter(id, &segs[k]));
+                            }
+                            p.push(mk_end(id, &segs[nseg - 1], crc));
+                            primed_deliveries = 1;
+                            (p, "reseal-explicit-train-sealed-as-re-use-after-abandoned-re-use-train")
+                        } else {
+                            p.push(mk_first(lt, &wl, id, total(40), ptype, &junk));
+                            let t = total(full.len());
+                            let crc = fr.gse(t, ptype, &wl, &full);
+                            p.push(mk_first(3, &[], id, t, ptype, &segs[0]));
+                            for k in 1..nseg - 1 {
+                                p.push(mk_inter(id, &segs[k]));
+                            }
+                            p.push(mk_end(id, &segs[nseg - 1], crc));
+                            primed_deliveries = 1;
+                            (p, "reseal-re-use-train-sealed-with-label-after-abandoned-explicit-train")
+                        }
+                    }
                     _ => {
                         // correct train (must be delivered and verified by oracle 1)
                         (mk(total(full.len()), &full, &all), "reseal-control-valid")
@@ -589,6 +650,14 @@ impl Property for Prop {
                 let mut rx = RxSpec::new(table);
                 let mut deliveries = 0usize;
                 for p in &pkts {
+                    if p.is_empty() {
+                        for _ in 0..64 {
+                            if d.provision_storage(vec![0u8; storage].into_boxed_slice()).is_err() {
+                                break;
+                            }
+                        }
+                        continue;
+                    }
                     rep.eval();
                     let r = dec_guard(&mut d, p);
                     if r.is_err() {
